@@ -470,6 +470,50 @@ func factsChroot(repo string) {
 	emit("/-- in package chrootarchive every use of archive.Unpack / UnpackLayer / Untar* / Apply*Layer / Tar* / tb.Do lies inside the function argument of a goInChroot call (counts: inside, outside) -/")
 	emit("def extractorUses : Nat × Nat := (%d, %d)", inside, outside)
 	emit("def umaskUses : Nat × Nat := (%d, %d)", umaskInside, umaskOutside)
+
+	// calls that change a thread's (or the process's) root or working directory: only inside the set-up function
+	// handed to unshare.Go, i.e. on a thread that has its own file-system attributes
+	jailOutside := 0
+	for _, fn := range p.sortedFiles() {
+		f := p.files[fn]
+		type span struct{ lo, hi token.Pos }
+		var spans []span
+		ast.Inspect(f, func(n ast.Node) bool {
+			if ce, ok := n.(*ast.CallExpr); ok && isSel(ce.Fun, "unshare", "Go") {
+				for _, a := range ce.Args {
+					if fl, ok := a.(*ast.FuncLit); ok {
+						spans = append(spans, span{fl.Pos(), fl.End()})
+					}
+				}
+			}
+			return true
+		})
+		ast.Inspect(f, func(n ast.Node) bool {
+			ce, ok := n.(*ast.CallExpr)
+			if !ok {
+				return true
+			}
+			se, ok := ce.Fun.(*ast.SelectorExpr)
+			if !ok {
+				return true
+			}
+			switch se.Sel.Name {
+			case "Chroot", "Chdir", "Fchdir", "PivotRoot", "SwitchRoot":
+				in := false
+				for _, sp := range spans {
+					if ce.Pos() >= sp.lo && ce.Pos() < sp.hi {
+						in = true
+					}
+				}
+				if !in {
+					jailOutside++
+				}
+			}
+			return true
+		})
+	}
+	emit("/-- calls of Chroot / Chdir / Fchdir / PivotRoot / SwitchRoot in package chrootarchive that lie outside a function literal handed to unshare.Go -/")
+	emit("def jailCallsOutsideUnshare : Nat := %d", jailOutside)
 	emit("")
 }
 
